@@ -283,7 +283,9 @@ impl<T: Clone, N, S: Storage<T, N>> Cluster<T, N, S> {
         match (&self.state, &request.data, &response.result) {
             (Election, PreVote, OK) => Ok(self.pre_vote_received(request)),
             (Candidate, Vote, OK) if request.term == self.term => Ok(self.vote_received(request)),
-            (Leader, Heartbeat | Append(_), OK) => self.commit(request).await,
+            (Leader, Heartbeat | Append(_), OK) if request.term == self.term => {
+                self.commit(request).await
+            }
             (Leader, Heartbeat | Append(_), LogMismatch(mismatch)) => {
                 self.reconcile(request, mismatch).await
             }
@@ -573,6 +575,14 @@ impl<T: Clone, N, S: Storage<T, N>> Cluster<T, N, S> {
         if votes > quorum {
             self.state = ClusterState::Leader;
             self.term = request.term;
+            self.nodes
+                .iter_mut()
+                .filter(|node| self.index != node.index)
+                .for_each(|node| {
+                    node.log_index = 0;
+                    node.log_term = 0;
+                    node.log_commit = 0;
+                });
             return Some(self.heartbeat_no_timer());
         }
 
